@@ -19,6 +19,7 @@ const (
 	tWriteError         // the next Write fails
 	tLocalClose         // Initiator.Close() / Acceptor.Close()
 	tHandlerStop        // handler.Stop()
+	tWriteTimeout       // the peer stops reading: every Write from now on hits its deadline
 	nTermCauses
 )
 
@@ -81,9 +82,12 @@ func H_C13_initiator() {
 	zz.CoarseSchedules(true)
 	zz.PickRotation(zz.Param(4))
 	zz.ExploreSchedules(zz.Param(3) > 0)
-	if point == pOutPending || cause == tWriteError {
-		if cause == tWriteError {
+	if point == pOutPending || cause == tWriteError || cause == tWriteTimeout {
+		if cause == tWriteError || cause == tWriteTimeout {
 			t.sc.failAt = len(t.sc.writes) + 1
+			if cause == tWriteTimeout {
+				t.sc.failMode = 2
+			}
 		}
 		m := tinyMsg('D', []byte("out"))
 		zz.Go(func() { _ = h.SendRaw(m) })
@@ -105,7 +109,7 @@ func H_C13_initiator() {
 	_ = h.SendRaw(tinyMsg('D', []byte("late")))
 	_ = ini.Send(messages.NewMockMessage("D", tinyMsg('D', []byte("late2")), nil))
 	switch cause {
-	case tPeerClose, tReadError, tWriteError:
+	case tPeerClose, tReadError, tWriteError, tWriteTimeout:
 		if point != pBadFrame { // there the handler loop itself ended first; its error is Serve's return value
 			zz.Assert(t.disconnected+t.stopped >= 1, "C13: the local side is not notified (disconnect/stopped) when the connection ends")
 		}
@@ -147,9 +151,12 @@ func H_C13_acceptor() {
 	zz.CoarseSchedules(true)
 	zz.PickRotation(zz.Param(4))
 	zz.ExploreSchedules(zz.Param(3) > 0)
-	if point == pOutPending || cause == tWriteError {
-		if cause == tWriteError {
+	if point == pOutPending || cause == tWriteError || cause == tWriteTimeout {
+		if cause == tWriteError || cause == tWriteTimeout {
 			t.sc.failAt = len(t.sc.writes) + 1
+			if cause == tWriteTimeout {
+				t.sc.failMode = 2
+			}
 		}
 		m := tinyMsg('D', []byte("out"))
 		zz.Go(func() { _ = h.SendRaw(m) })
@@ -170,7 +177,7 @@ func H_C13_acceptor() {
 	_ = h.SendRaw(tinyMsg('D', []byte("late")))
 	_ = h.Send(messages.NewMockMessage("D", tinyMsg('D', []byte("late2")), nil))
 	switch cause {
-	case tPeerClose, tReadError, tWriteError:
+	case tPeerClose, tReadError, tWriteError, tWriteTimeout:
 		if point != pBadFrame { // there the handler loop itself ended first; its error is Serve's return value
 			zz.Assert(t.disconnected+t.stopped >= 1, "C13: the local side is not notified (disconnect/stopped) when the connection ends")
 		}
